@@ -85,6 +85,10 @@ def gen_history(rng: random.Random) -> Dict[str, Any]:
                 # exception the property grants is for *queries* containing a QU question
                 data = wire.build(id_=rng.randrange(65536), flags=0x8400, questions=[(T2, 12, 0x8001)],
                                   answers=[(T2, 12, 1, 4500, inst), (inst, 33, 0x8001, 120, (0, 0, 82, "ph.local."))])
+        if kind.startswith("resp-") and rng.random() < 0.25:
+            # header bits that mean nothing in a response but are legal to receive (TC, missing AA, RA, an rcode): a response is a
+            # response, its copy changes nothing
+            data = data[:2] + rng.choice([0x8600, 0x8000, 0x8480, 0x8403, 0x8601]).to_bytes(2, "big") + data[4:]
         events.append({"t": t, "kind": kind, "data": data, "src": src, "has_qu": has_qu})
         t += rng.choice([0, 1, 30, 200, 600, 999, 1000, 1001, 1500])
     return {"layout": layout, "svcs": svcs, "events": events, "self_delay": rng.choice([0.0, 0.0, 1.0, 30.0])}
